@@ -110,6 +110,12 @@ func MakeBidToBuy1SatOrdinal(ctx context.Context, mba *MakeBidArgs) (*bt.Tx, err
 	if err != nil {
 		return nil, err
 	}
+	// Change silently adds nothing when the inputs do not even cover the fee
+	if enough, err := tx.EstimateIsFeePaidEnough(mba.FQ); err != nil {
+		return nil, err
+	} else if !enough {
+		return nil, bt.ErrInsufficientFees
+	}
 
 	//nolint: dupl // TODO: are 2 dummies useful or to be removed?
 	for i, u := range mba.BidderUTXOs {
